@@ -58,6 +58,22 @@ type world struct {
 	viol    []violation
 	lastErr string
 	reads   int
+	ticker  *seqTicker // Poller configurations: the polling task's ticker, fired by the event "tick"
+}
+
+// seqTicker is a poll ticker the history fires itself; Done reports the end of the poll a tick caused.
+type seqTicker struct {
+	ch   chan time.Time
+	done chan struct{}
+}
+
+func (t *seqTicker) Chan() <-chan time.Time { return t.ch }
+func (t *seqTicker) Stop()                  {}
+func (t *seqTicker) Done() {
+	select {
+	case t.done <- struct{}{}:
+	default:
+	}
 }
 
 type violation struct {
@@ -98,7 +114,8 @@ func (w *world) newStore() error {
 	}
 	if w.cfg.Poller {
 		sc.PollInterval = 0
-		sc.PollTicker = &hTicker{ch: make(chan time.Time)}
+		w.ticker = &seqTicker{ch: make(chan time.Time), done: make(chan struct{}, 1)}
+		sc.PollTicker = w.ticker
 	}
 	st, err := setec.NewStore(context.Background(), sc)
 	if err != nil {
@@ -348,7 +365,10 @@ func (w *world) step1(ev string) {
 			w.fail("C15", "newupdater-failing-builder", "NewUpdater(%q) with a failing builder returned (%v, %v)", name, u, err)
 		}
 		e.LastAccess = w.now() // the builder was handed the current bytes: a read
-	case "poll":
+	case "poll", "tick":
+		if kind == "tick" && w.ticker == nil {
+			return
+		}
 		// which requests will fail?
 		willFail := false
 		var polled []string
@@ -365,7 +385,32 @@ func (w *world) step1(ev string) {
 			}
 		}
 		before := w.svc.NReq()
-		err := w.st.Refresh(ctx)
+		var err error
+		if kind == "tick" {
+			// the polling task's own poll: fire the ticker and wait until the task reports the poll done
+			select {
+			case <-w.ticker.done:
+			default:
+			}
+			select {
+			case w.ticker.ch <- w.clock:
+			case <-time.After(10 * time.Second):
+				w.fail("C11", "tick-not-taken", "the polling task did not take a tick within 10 s (real time)")
+				return
+			}
+			select {
+			case <-w.ticker.done:
+			case <-time.After(10 * time.Second):
+				w.fail("C11", "tick-never-done", "the polling task took a tick and did not report the poll done within 10 s (real time)")
+				return
+			}
+			if willFail {
+				w.compare("after failed background poll")
+				return
+			}
+		} else {
+			err = w.st.Refresh(ctx)
+		}
 		reqs := w.svc.Log[before:]
 		if willFail {
 			if err == nil {
@@ -405,6 +450,14 @@ func (w *world) step1(ev string) {
 		for n, c := range cnt {
 			if c > 1 {
 				w.fail("C11", "poll-duplicate-request", "poll sent %d requests for %q", c, n)
+			}
+		}
+		if kind == "tick" {
+			// one poll per interval: a tick is not skipped because somebody refreshed earlier
+			for _, n := range polled {
+				if cnt[n] == 0 {
+					w.fail("C11", "tick-without-poll", "the polling task reported a tick's poll done without asking the service about %q", n)
+				}
 			}
 		}
 	case "restart":
@@ -504,6 +557,17 @@ func events(cfg seqCfg) []string {
 	}
 	if len(cfg.Declared) > 0 {
 		out = append(out, "dup:"+cfg.Declared[0])
+	}
+	// a not-found answer for a name that is not declared (deleted on the service, or a proxy's 404)
+	for _, n := range cfg.Names {
+		declared := false
+		for _, d := range cfg.Declared {
+			declared = declared || d == n
+		}
+		if !declared {
+			out = append(out, "nfnext:"+n)
+			break
+		}
 	}
 	for _, n := range cfg.Names {
 		out = append(out, "updfail:"+n)
